@@ -969,3 +969,179 @@ def validate_read_from_parser(run, n=40):
             if bad <= 2:
                 run.tie_broken("translator", "generated Configuration.read_from_parser vs the real method", "factories %s failing %s target %r: real %s generated %s" % (names, failing, target, real, a))
     return len(cases)
+
+
+def validate_eam_builder_fs(run, n=60):
+    """the regenerated EAM_Potential_Builder_FS (zero-filling and strict; the four methods the subclass overrides and the inherited ones as they run on it) against the
+    real class on generated Finnis-Sinclair potable models: which elements are built, in which order, with which reference data and embedding function, and WHICH
+    FUNCTION STANDS UNDER WHICH NEIGHBOUR SPECIES in each element's density dictionary (zero where undeclared)"""
+    import atsim.potentials.config
+    from atsim.potentials.config import ConfigParser
+    from atsim.potentials.config._potential_form_registry import Potential_Form_Registry
+    from atsim.potentials.config._modifier_registry import Modifier_Registry
+    from atsim.potentials.config._eam_potential_builder import EAM_Potential_Builder_FS
+    from atsim.potentials.config._common import ConfigurationException
+    from atsim.potentials.referencedata import Reference_Data, Reference_Data_Exception
+    ok, log = build_gen()
+    if not ok:
+        run.tie_broken("translator", "Gen/Logic.lean (Finnis-Sinclair builder)", "the regenerated definitions (or their driver) do not build: " + log[-600:])
+        return 0
+    rng = run.rng
+    pool = ["Al", "Cu", "Fe", "Zn", "Sn", "Xx", "Qq", "Mg"]
+    cases, reqs = [], []
+    for _ in range(n):
+        labels = rng.sample(pool, rng.randint(1, 4))
+        emb = [l for l in labels if rng.random() < 0.75]
+        rng.shuffle(emb)
+        combos = [(a, b) for a in labels for b in labels]
+        rng.shuffle(combos)
+        den = [c for c in combos if rng.random() < 0.55]
+        fid = [0]
+
+        def nf():
+            fid[0] += 1
+            return fid[0]
+        erows = [(l, nf()) for l in emb]
+        drows = [(a, b, nf()) for a, b in den]
+        species = {}
+        for l in labels:
+            if l in ("Xx", "Qq"):
+                props = {}
+                if rng.random() < 0.85:
+                    props["atomic_number"] = rng.randint(1, 99)
+                if rng.random() < 0.85:
+                    props["atomic_mass"] = rng.randint(2, 400) / 2.0
+                if rng.random() < 0.5:
+                    props["lattice_constant"] = rng.randint(2, 20) / 4.0
+                if rng.random() < 0.5:
+                    props["lattice_type"] = rng.choice(["bcc", "hcp"])
+                if props:
+                    species[l] = props
+            elif rng.random() < 0.3:
+                species[l] = {"atomic_mass": rng.randint(2, 400) / 2.0}
+        add_undefined = rng.random() < 0.8
+        text = "[Tabulation]\ntarget : setfl_fs\ncutoff : 4.0\nnr : 8\ncutoff_rho : 2.0\nnrho : 4\n\n[Pair]\n\n[EAM-Embed]\n"
+        text += "".join("%s : >=0 as.polynomial %d.0 1.0\n" % (l, 64 * f) for l, f in erows) + "\n[EAM-Density]\n"
+        text += "".join("%s->%s : >=0 as.polynomial %d.0 1.0\n" % (a, b, 64 * f) for a, b, f in drows)
+        if species:
+            text += "\n[Species]\n" + "".join("%s.%s : %s\n" % (l, k, v) for l, pr in species.items() for k, v in pr.items())
+        cp = ConfigParser(io.StringIO(text))
+        rd = Reference_Data(cp.species)
+
+        def ref(l, what):
+            try:
+                return rd.get(l, what)
+            except Reference_Data_Exception:
+                return None
+        meta = []
+        for l in labels:
+            row = dict(sp=l)
+            for key, what, conv in (("z", "atomic_number", int), ("mass", "atomic_mass", lambda v: common.fq(Fr(v))), ("a0", "lattice_constant", lambda v: common.fq(Fr(v))), ("lat", "lattice_type", str)):
+                v = ref(l, what)
+                if v is not None:
+                    row[key] = conv(v)
+            meta.append(row)
+        reqs.append(dict(op="eam_builder_fs", embed=[dict(sp=l, fid=f) for l, f in erows], density=[{"from": a, "to": b, "fid": f} for a, b, f in drows], meta=meta,
+                         add_undefined=add_undefined, reverse=rng.random() < 0.5))
+        cases.append((text, cp, rd, add_undefined))
+    bad = 0
+    for (text, cp, rd, add_undefined), a in zip(cases, query_gen(reqs)):
+        try:
+            b = EAM_Potential_Builder_FS(cp, Potential_Form_Registry(cp, register_standard=True), Modifier_Registry(), rd, add_undefined=add_undefined)
+            real = []
+            dec = lambda f: int(round((f(1.0) - 1.0) / 64.0)) if f(1.0) != 0.0 else 0
+            for e in b.eam_potentials:
+                real.append([e.species, int(e.atomicNumber), common.fq(Fr(e.mass)), common.fq(Fr(e.latticeConstant)), str(e.latticeType), dec(e.embeddingFunction),
+                             [[k, dec(v)] for k, v in sorted(e.electronDensityFunction.items())]])
+        except ConfigurationException as e:
+            m = str(e)
+            real = "speciesMismatch" if "do not match" in m else ("noMass" if "atomic mass" in m else ("noAtomicNumber" if "atomic number" in m else "other: " + m[:80]))
+        except KeyError:
+            real = "keyError"
+        run.traces += 1
+        run.dist["translator-validation/eam_builder_fs/%s" % (real if isinstance(real, str) else "ok n=%d" % len(real))] += 1
+        if real != a:
+            bad += 1
+            if bad <= 2:
+                run.tie_broken("translator", "generated EAM_Potential_Builder_FS vs the real one", "model %r (add_undefined=%s): real %s generated %s" % (text[98:420], add_undefined, real, a))
+    return len(cases)
+
+
+def validate_create_tabulation(run, n=60):
+    """the regenerated create_tabulation of the pair, DL_POLY, LAMMPS and EAM factories (with extract_potential_objects / extract_tabulation_args) against the real
+    methods: fresh factory objects of the real classes whose tabulation class is a recorder, a parser object that reports [Tabulation] values (each present or None),
+    the pair-object and EAM builders replaced by stand-ins that return lists or raise: the recorded constructor arguments (which value in which position) or the error"""
+    import atsim.potentials.config
+    from atsim.potentials.config import _tabulation_factories as tf
+    from atsim.potentials.config._common import ConfigurationException
+    ok, log = build_gen()
+    if not ok:
+        run.tie_broken("translator", "Gen/Logic.lean (factories)", "the regenerated definitions (or their driver) do not build: " + log[-600:])
+        return 0
+    rng = run.rng
+    cases, reqs = [], []
+    for _ in range(n):
+        which = rng.choice(["pair", "dlpoly", "lammps", "eam"])
+        sec = dict(cutoff=rng.choice([None, 2.5, 12.0, 0.5]), nr=rng.choice([None, 1, 2, 3, 4, 5, 8, 12, 1000, 1001]),
+                   cutoff_rho=rng.choice([None, 50.0, 3.25]), nrho=rng.choice([None, 7, 500]))
+        pf, bf = rng.random() < 0.12, rng.random() < 0.12
+        cases.append((which, sec, pf, bf))
+        reqs.append(dict(op="create_tabulation", which=which, pair_fails=pf, builder_fails=bf,
+                         **dict((k, (None if v is None else (common.fq(Fr(v)) if k.startswith("cutoff") else v))) for k, v in sec.items())))
+    bad = 0
+    saved = (tf._create_pair_objects, tf.Potential_Form_Registry, tf.Modifier_Registry, tf.Reference_Data)
+    import logging
+    logging.disable(logging.CRITICAL)
+    try:
+        tf.Potential_Form_Registry = lambda *a, **k: "pfr"
+        tf.Modifier_Registry = lambda *a, **k: "mr"
+        tf.Reference_Data = lambda *a, **k: "rd"
+        for (which, sec, pf, bf), a in zip(cases, query_gen(reqs)):
+            class Pot(object):
+                speciesA, speciesB = "A", "B"
+
+            class Eam(object):
+                species = "X"
+                electronDensityFunction = None
+
+            def pair_objects(pfr, mr, cp):
+                if pf:
+                    raise ConfigurationException("pair builder refuses")
+                return [Pot(), Pot()]
+
+            class Builder(object):
+                def __init__(self, cp, pfr, mr, rd):
+                    if bf:
+                        raise ConfigurationException("EAM builder refuses")
+                    self.eam_potentials = [Eam(), Eam(), Eam()]
+
+            def recorder(*args):
+                return [len(x) if isinstance(x, list) else x for x in args]
+            tf._create_pair_objects = pair_objects
+
+            class Cp(object):
+                species = {}
+
+                class tabulation(object):
+                    pass
+            for k, v in sec.items():
+                setattr(Cp.tabulation, k, v)
+            fac = {"pair": lambda: tf.PairTabulationFactory("t", recorder), "dlpoly": lambda: tf.DLPOLY_PairTabulationFactory("t", recorder),
+                   "lammps": lambda: tf.LAMMPS_PairTabulationFactory("t", recorder), "eam": lambda: tf.EAMTabulationFactory("t", recorder, Builder)}[which]()
+            try:
+                real = [common.fq(Fr(x)) for x in fac.create_tabulation(Cp())]
+            except ConfigurationException as e:
+                m = str(e)
+                real = ("notMultipleOfFour" if "divisible by 4" in m else "fourRowsOrFewer" if "more than 4 rows" in m else "fewerThanThreePoints" if "at least two rows" in m
+                        else "other" if "refuses" in m else "unexpected: " + m[:60])
+            run.traces += 1
+            run.dist["translator-validation/create_tabulation/%s/%s" % (which, real if isinstance(real, str) else "ok")] += 1
+            if real != a:
+                bad += 1
+                if bad <= 2:
+                    run.tie_broken("translator", "generated create_tabulation vs the real factories", "%s factory, [Tabulation] %s, pair builder fails %s, EAM builder fails %s: real %s generated %s"
+                                   % (which, sec, pf, bf, real, a))
+    finally:
+        tf._create_pair_objects, tf.Potential_Form_Registry, tf.Modifier_Registry, tf.Reference_Data = saved
+        logging.disable(logging.NOTSET)
+    return len(cases)
